@@ -17,6 +17,16 @@ let init () =
     let bytes = match fmt, a with
       | "mpeg", _ -> InfoMpeg.build_mpeg_frame (InfoMpeg.mpeg_p_of_list (zs a))
       | "mpeg_hdr", _ -> InfoMpeg.build_mpeg_header (InfoMpeg.mpeg_p_of_list (zs a))
+      | "xing_frame", [vb; lb; prot; bri; sri; pad; priv; mode; tail; info; frames; bytes; toc; scale; vs; vm; lp; delay; padding] ->
+        (* Xing/Info tag (+ LAME extension when vs is not "-") at the specification's offset *)
+        let p = InfoMpeg.mpeg_p_of_list (zs [vb; lb; prot; bri; sri; pad; priv; mode; tail]) in
+        let tag = InfoXing.build_xing_tag (InfoXing.xing_p_of (z info) (opt_z frames) (opt_z bytes) (z toc) (opt_z scale)) in
+        let lame = if vs = "-" then [] else InfoXing.build_lame_tag (bytes_of_hex vs) (z vm) (z lp) (z delay) (z padding) in
+        InfoXing.build_tag_frame p (InfoXing.spec_xing_offset p) (Stdlib.List.append tag lame)
+      | "vbri_frame", [vb; lb; prot; bri; sri; pad; priv; mode; tail; delay; quality; bytes; frames; entries; scale; esize; tocframes] ->
+        let p = InfoMpeg.mpeg_p_of_list (zs [vb; lb; prot; bri; sri; pad; priv; mode; tail]) in
+        InfoXing.build_tag_frame p (z_of_int 36)
+          (InfoXing.build_vbri_tag (z delay) (z quality) (z bytes) (z frames) (z entries) (z scale) (z esize) (z tocframes))
       | "flac", _ -> InfoFlac.build_flac_streaminfo (InfoFlac.flac_p_of_list (zs a))
       | "flac_write", _ ->
         (match InfoFlac.flac_streaminfo_write (InfoFlac.flac_p_of_list (zs a)) with
@@ -55,6 +65,7 @@ let init () =
     let g () = match a with [x] -> z x | _ -> failwith "granule" in
     zl (match fmt with
       | "mpeg" -> InfoMpeg.decode_mpeg_frame d
+      | "mpeg_vbr" -> InfoXing.decode_mpeg_vbr d
       | "flac" -> InfoFlac.decode_flac_streaminfo d
       | "wave" -> InfoIff.decode_wave_fmt d (match a with [x] -> opt_z x | _ -> failwith "data size")
       | "aiff" -> InfoIff.decode_aiff_comm d
